@@ -225,12 +225,13 @@ type vLightning struct {
 	peers   []PeerID
 	listErr bool
 	lists   int
+	noFail  bool // sends never fail (no draw)
 }
 
 func (l *vLightning) SendCustomMessage(ctx context.Context, to PeerID, msgType messages.MessageType, payload []byte) error {
 	l.sends = append(l.sends, vSent{to: to.String(), msgType: msgType, payload: payload})
 	zzverif.Effect("send", to.String(), int(msgType))
-	if zzverif.Bool("send.err") {
+	if !l.noFail && zzverif.Bool("send.err") {
 		return errors.New("send failed")
 	}
 	return nil
